@@ -649,7 +649,8 @@ Section HostShape.
   | HS_opaque : ns = true -> forallb (fun r => negb (isForbiddenHost r)) (runes input) = true ->
                 h = flat_map (fun r => percentEncodeRune c r (Some pes_C0)) (runes input) -> host_shape c input ns h
   | HS_v4 : forall a, ns = false -> h = IPv4String a -> host_shape c input ns h
-  | HS_domain : forall d a e, ns = false -> input <> [] -> idna_raw d = (a, e) -> (e = false -> a <> []) ->
+  | HS_domain : forall d a e, ns = false -> d <> [] -> idna_raw d = (a, e) -> (e = false -> a <> []) ->
+                (e = true -> containsOnlyASCIIOrMiscAndNoPunycode d = true) ->
                 existsb isForbiddenDomain (runes a) = false ->
                 h = apply_hostfun (c_post c) a -> host_shape c input ns h.
 
@@ -663,20 +664,28 @@ Section HostShape.
     destruct (utf8_enc (hex_val h * 16 + hex_val l)); [contradiction|discriminate].
   Qed.
 
-  Lemma ToASCII_some : forall c src a, src <> [] -> ToASCII idna_raw c src = Some a ->
-    exists d e, idna_raw d = (a, e) /\ (e = false -> a <> []).
+  Lemma runes_nonnil : forall s, s <> [] -> runes s <> [].
   Proof.
-    intros c src a Hne H. unfold ToASCII in H. destruct src as [|x s]; [contradiction|].
+    intros [|b0 rest] H; [contradiction|]. unfold runes, decode. cbn [length decode_fuel].
+    destruct (dec1 b0 rest). discriminate.
+  Qed.
+
+  Lemma ToASCII_some : forall c src a, c_lax c = false -> src <> [] -> ToASCII idna_raw c src = Some a ->
+    exists d e, d <> [] /\ idna_raw d = (a, e) /\ (e = false -> a <> []) /\
+                (e = true -> containsOnlyASCIIOrMiscAndNoPunycode d = true).
+  Proof.
+    intros c src a Hlax Hne H. unfold ToASCII in H. destruct src as [|x s]; [contradiction|].
     set (src' := if c_latin1 c then _ else _) in H.
+    assert (Hs' : src' <> []).
+    { unfold src'. destruct (c_latin1 c); [|discriminate].
+      unfold stringToUnicode. destruct (forallb _ _); [|discriminate]. apply runes_nonnil. discriminate. }
     destruct (idna_raw src') as [a' err] eqn:E.
     destruct err.
-    - destruct (containsOnlyASCIIOrMiscAndNoPunycode src').
-      + cbn [andb] in H. injection H as <-. exists src', true. split; [exact E|discriminate].
-      + cbn [andb] in H. destruct (negb (c_lax c)); [discriminate H|].
-        destruct (is_nil a') eqn:En; [discriminate H|]. injection H as <-.
-        exists src', true. split; [exact E|discriminate].
+    - destruct (containsOnlyASCIIOrMiscAndNoPunycode src') eqn:EC.
+      + cbn [andb] in H. injection H as <-. exists src', true. repeat split; auto. discriminate.
+      + cbn [andb] in H. rewrite Hlax in H. discriminate H.
     - cbn [andb] in H. destruct (is_nil a') eqn:En; [discriminate H|]. injection H as <-.
-      exists src', false. split; [exact E|]. intros _. apply is_nil_false. exact En.
+      exists src', false. repeat split; auto; try discriminate. intros _. apply is_nil_false. exact En.
   Qed.
 
   Theorem parseHost_shape : forall c u input ns u' h, c_lax c = false ->
@@ -722,8 +731,197 @@ Section HostShape.
              split; [eapply only_verrs_trans; [exact H1|eapply only_verrs_trans; eassumption]|].
              eapply HS_v4; [reflexivity|exact Ha].
           -- injection K as <- <-. split; [eapply only_verrs_trans; eassumption|].
-             destruct (ToASCII_some c domain a Hd ET) as [d [e [E1 E2]]].
-             eapply HS_domain; try eassumption; try reflexivity. discriminate.
+             destruct (ToASCII_some c domain a Hlax Hd ET) as [d [e [E0 [E1 [E2 E3]]]]].
+             eapply HS_domain; try eassumption; reflexivity.
   Qed.
 End HostShape.
 Print Assumptions parseHost_shape.
+
+(* ------------------------------------------------------------------ *)
+(* consequences of the shapes: the host component of [Inv]              *)
+
+Lemma below128_sweep : forall (P : N -> bool),
+  forallb P (map N.of_nat (seq 0 128)) = true -> forall b, b < 128 -> P b = true.
+Proof.
+  intros P H b Hb. rewrite forallb_forall in H. apply H.
+  apply in_map_iff. exists (N.to_nat b). split; [apply N2Nat.id|]. apply in_seq. lia.
+Qed.
+
+Lemma fmt_fuel_chars : forall (Q : N -> bool) radix dig, 0 < radix ->
+  (forall k, k < radix -> Q (dig k) = true) ->
+  forall fuel n, forallb Q (fmt_fuel radix dig fuel n) = true.
+Proof.
+  intros Q radix dig Hr HQ fuel. induction fuel as [|f IH]; intro n; [reflexivity|].
+  cbn [fmt_fuel]. destruct (n <? radix) eqn:E.
+  - cbn [forallb]. rewrite HQ by lia. reflexivity.
+  - rewrite forallb_app, IH. cbn [forallb]. rewrite HQ; [reflexivity|]. apply N.mod_lt. lia.
+Qed.
+
+Lemma fmt_fuel_nonnil : forall radix dig f n, fmt_fuel radix dig (Datatypes.S f) n <> [].
+Proof.
+  intros radix dig f n. cbn [fmt_fuel]. destruct (n <? radix); [discriminate|].
+  destruct (fmt_fuel radix dig f (n / radix)); discriminate.
+Qed.
+
+Definition v4ch (b : N) : bool :=
+  negb (isForbiddenDomain b) && (b <? 128) && negb (is_upper b) && printable b.
+
+Lemma hex_lower_dec : forall k, k < 10 -> v4ch (hex_lower k) = true.
+Proof.
+  intros k H. assert (E : k = 0 \/ k = 1 \/ k = 2 \/ k = 3 \/ k = 4 \/ k = 5 \/ k = 6 \/ k = 7 \/ k = 8 \/ k = 9) by lia.
+  repeat (destruct E as [->|E]; [vm_compute; reflexivity|]). subst k. vm_compute. reflexivity.
+Qed.
+
+Lemma itoa_v4ch : forall n, forallb v4ch (itoa n) = true.
+Proof. intro n. unfold itoa. apply fmt_fuel_chars; [lia|apply hex_lower_dec]. Qed.
+
+Lemma itoa_nonnil : forall n, itoa n <> [].
+Proof. intro n. apply fmt_fuel_nonnil. Qed.
+
+Lemma IPv4String_v4ch : forall a, forallb v4ch (IPv4String a) = true.
+Proof.
+  intro a. unfold IPv4String. rewrite !forallb_app, !itoa_v4ch.
+  replace (forallb v4ch [46]) with true by (vm_compute; reflexivity). reflexivity.
+Qed.
+
+Lemma IPv4String_nonnil : forall a, IPv4String a <> [].
+Proof.
+  intro a. unfold IPv4String. pose proof (itoa_nonnil (a / 16777216)) as H.
+  destruct (itoa (a / 16777216)); [contradiction|discriminate].
+Qed.
+
+Lemma hex_lower_hex : forall k, k < 16 -> printable (hex_lower k) = true.
+Proof. intros k H. unfold hex_lower, printable. destruct (k <? 10) eqn:E; lia. Qed.
+
+Lemma fmt_hex_printable : forall n, forallb printable (fmt_hex n) = true.
+Proof. intro n. unfold fmt_hex. apply fmt_fuel_chars; [lia|apply hex_lower_hex]. Qed.
+
+Lemma v6_print_printable : forall l idx compress ignore0, forallb printable (v6_print l idx compress ignore0) = true.
+Proof.
+  induction l as [|x l IH]; intros idx compress ignore0; [reflexivity|].
+  cbn [v6_print]. destruct (ignore0 && (x =? 0)); [apply IH|].
+  destruct (match compress with Some ci => Nat.eqb ci idx | None => false end).
+  - rewrite forallb_app, IH. destruct (Nat.eqb idx 0); reflexivity.
+  - rewrite !forallb_app, fmt_hex_printable, IH. destruct (Nat.eqb idx 7); reflexivity.
+Qed.
+
+Lemma bracketed_ok : forall s, is_bracketed ([91] ++ s ++ [93]) = true.
+Proof.
+  intro s. cbn [app]. unfold is_bracketed, has_suffix.
+  change (rev (91 :: s ++ [93])) with (rev (s ++ [93]) ++ [91]).
+  rewrite rev_app_distr. reflexivity.
+Qed.
+
+(* the bytes of an opaque host *)
+Definition opch (b : N) : bool := negb (isForbiddenHost b) && printable b.
+
+Lemma opaque_host_bytes : forall c l, forallb (fun r => negb (isForbiddenHost r)) l = true ->
+  forallb opch (flat_map (fun r => percentEncodeRune c r (Some pes_C0)) l) = true.
+Proof.
+  intros c l. induction l as [|r l IH]; [reflexivity|].
+  cbn [forallb flat_map]. intro H. apply andb_true_iff in H. destruct H as [H1 H2].
+  rewrite forallb_app, (IH H2), andb_true_r.
+  apply Q_enc_rune; [vm_compute; reflexivity|vm_compute; reflexivity|].
+  intro E. unfold opch. rewrite H1. cbn [andb].
+  apply (not_encoded_printable pes_C0); [reflexivity|exact E].
+Qed.
+
+Lemma enc_rune_nonnil : forall c r t, percentEncodeRune c r t <> [].
+Proof.
+  intros c r t. unfold percentEncodeRune.
+  assert (E : (if c_latin1 c then pct_byte (fst (latin1_enc r)) else flat_map pct_byte (utf8_enc r)) <> []).
+  { destruct (c_latin1 c); [discriminate|]. pose proof (utf8_enc_nonempty r) as N.
+    destruct (utf8_enc r); [contradiction|discriminate]. }
+  destruct t as [t|]; [|exact E]. destruct (RuneShouldBeEncoded t r); [exact E|apply utf8_enc_nonempty].
+Qed.
+
+Section HostOk.
+  Variable idna_raw : str -> str * bool.
+
+  (* H3: what the proofs need of the IDNA oracle, on the calls whose answer parseHost uses
+     (no error, or an error on an all-ASCII/no-ACE input): the answer is lower-case ASCII, and is
+     not empty in the error case (the code checks emptiness only in the no-error case).
+     parseHost itself checks neither. *)
+  Definition H3 : Prop :=
+    forall d a e, d <> [] -> idna_raw d = (a, e) ->
+      (e = true -> containsOnlyASCIIOrMiscAndNoPunycode d = true) ->
+      forallb (fun b => b <? 128) a = true /\ forallb (fun b => negb (is_upper b)) a = true /\ (e = true -> a <> []).
+
+  Hypothesis HH3 : H3.
+
+  Lemma host_shape_ok : forall c input ns h, c_post c = HF_none -> host_shape idna_raw c input ns h ->
+    host_ok (negb ns) h = true /\ forallb printable h = true /\ (input <> [] -> h <> []).
+  Proof.
+    intros c input ns h Hpost [Hi Hh|a Hh|Hns Hf Hh|a Hns Hh|d a e Hns Hd Hid He1 He2 Hf Hh].
+    - subst. split; [destruct ns; reflexivity|]. split; [reflexivity|]. intro N; contradiction.
+    - subst h. split; [unfold host_ok; rewrite bracketed_ok; reflexivity|].
+      split; [|intros _; discriminate].
+      rewrite !forallb_app. unfold IPv6String. rewrite v6_print_printable. reflexivity.
+    - subst ns h. pose proof (opaque_host_bytes c _ Hf) as B. cbn [negb].
+      split; [|split].
+      + unfold host_ok. apply orb_true_iff. right.
+        revert B. apply forallb_impl. intros x Hx. unfold opch in Hx. apply andb_true_iff in Hx. apply Hx.
+      + revert B. apply forallb_impl. intros x Hx. unfold opch in Hx. apply andb_true_iff in Hx. apply Hx.
+      + intro Hne. pose proof (runes_nonnil _ Hne) as R. destruct (runes input) as [|r l]; [contradiction|].
+        cbn [flat_map]. pose proof (enc_rune_nonnil c r (Some pes_C0)) as N.
+        destruct (percentEncodeRune c r (Some pes_C0)); [contradiction|discriminate].
+    - subst ns h. pose proof (IPv4String_v4ch a) as B. cbn [negb].
+      assert (F : forall (P : N -> bool), (forall x, v4ch x = true -> P x = true) -> forallb P (IPv4String a) = true).
+      { intros P HP. revert B. apply forallb_impl. exact HP. }
+      split; [|split].
+      + unfold host_ok. apply orb_true_iff. right.
+        rewrite !F; try reflexivity; intros x Hx; unfold v4ch in Hx;
+          repeat (apply andb_true_iff in Hx; destruct Hx as [Hx ?]); assumption.
+      + apply F. intros x Hx. unfold v4ch in Hx. apply andb_true_iff in Hx. apply Hx.
+      + intros _. apply IPv4String_nonnil.
+    - subst ns. rewrite Hpost in Hh. cbn [apply_hostfun] in Hh. subst h. cbn [negb].
+      destruct (HH3 d a e Hd Hid He2) as [A1 [A2 A3]].
+      assert (R : runes a = a).
+      { apply runes_ascii. apply Forall_forall. intros x Hx. rewrite forallb_forall in A1.
+        specialize (A1 x Hx). lia. }
+      rewrite R in Hf.
+      assert (FD : forallb (fun b => negb (isForbiddenDomain b)) a = true).
+      { apply forallb_forall. intros x Hx. apply negb_true_iff.
+        destruct (isForbiddenDomain x) eqn:E; [|reflexivity].
+        assert (existsb isForbiddenDomain a = true) by (apply existsb_exists; exists x; auto). congruence. }
+      split; [|split].
+      + unfold host_ok. rewrite FD, A1, A2. apply orb_true_r.
+      + apply forallb_forall. intros x Hx. rewrite forallb_forall in FD, A1.
+        specialize (FD x Hx). specialize (A1 x Hx).
+        assert (Hx128 : x < 128) by lia.
+        pose proof (below128_sweep (fun x => implb (negb (isForbiddenDomain x)) (printable x))
+                      ltac:(vm_compute; reflexivity) x Hx128) as S.
+        cbv beta in S. rewrite FD in S. exact S.
+      + intros _. destruct e; [apply A3; reflexivity|apply He1; reflexivity].
+  Qed.
+
+  Theorem parseHost_ok : forall c u input ns u' h,
+    c_lax c = false -> c_pre c = HF_none -> c_post c = HF_none ->
+    parseHost idna_raw c u input ns = Ok u' h ->
+    only_verrs u u' /\ host_ok (negb ns) h = true /\ forallb printable h = true /\ (input <> [] -> h <> []).
+  Proof.
+    intros c u input ns u' h Hlax Hpre Hpost H.
+    apply (parseHost_shape idna_raw c u input ns u' h Hlax) in H. destruct H as [H1 H2].
+    rewrite Hpre in H2. cbn [apply_hostfun] in H2.
+    split; [exact H1|]. exact (host_shape_ok c input ns h Hpost H2).
+  Qed.
+End HostOk.
+Print Assumptions parseHost_ok.
+
+(* H3 is satisfiable: an oracle that lower-cases the ASCII bytes and drops the others, never failing *)
+Definition idna_toy (s : str) : str * bool := (map ascii_lower (filter (fun b => b <? 128) s), false).
+Example H3_toy : H3 idna_toy.
+Proof.
+  intros d a e Hd E _. unfold idna_toy in E. injection E as <- <-.
+  split; [|split; [|discriminate]].
+  - induction d as [|x d IH]; [reflexivity|]. cbn [filter]. destruct (x <? 128) eqn:Ex.
+    + cbn [map forallb]. destruct d as [|y d']; [|rewrite IH by discriminate].
+      * cbn [filter map forallb]. unfold ascii_lower, is_upper. destruct ((65 <=? x) && (x <=? 90)) eqn:Eu; lia.
+      * unfold ascii_lower, is_upper. destruct ((65 <=? x) && (x <=? 90)) eqn:Eu; lia.
+    + destruct d as [|y d']; [reflexivity|apply IH; discriminate].
+  - induction d as [|x d IH]; [reflexivity|]. cbn [filter]. destruct (x <? 128) eqn:Ex.
+    + cbn [map forallb]. destruct d as [|y d']; [|rewrite IH by discriminate].
+      * cbn [filter map forallb]. unfold ascii_lower, is_upper. destruct ((65 <=? x) && (x <=? 90)) eqn:Eu; lia.
+      * unfold ascii_lower, is_upper. destruct ((65 <=? x) && (x <=? 90)) eqn:Eu; lia.
+    + destruct d as [|y d']; [reflexivity|apply IH; discriminate].
+Qed.
